@@ -27,6 +27,12 @@ def crawl_site(chk: Check, site: driver.Site, view: str, kind_of: typing.Dict[by
         if (req, tls) in seen:
             continue
         seen.add((req, tls))
+        if entry is not None and fam in ("gopher", "gopherp") and isinstance(entry.selector, bytes) and \
+                entry.selector.decode("utf-8", "surrogateescape").rstrip() != entry.selector.decode("utf-8", "surrogateescape"):
+            # outside the property's quantifier: the Gopher family cannot express a selector that ends in a blank
+            # (request fields are trimmed); the URL-based views must still reach the same object
+            chk.count("gopher_family_trailing_blank_selectors_skipped")
+            continue
         resp = site.request(req, tls=tls)
         followed += 1
         chk.count("links_followed:" + fam)
@@ -149,7 +155,9 @@ def extra_names(rng, model: sites.SiteModel) -> None:
               "a b 12", "back\\slash.txt", "tilde~.txt", "colon:name.txt", "@at.txt", "sub dir/in ner.txt",
               "wapdir/inner.txt", "café d/été.txt", "wap/notes.txt", "wap/phones/list.txt", "sale%20off.txt", "a%41.txt",
               "pct%2Fdir/50%25.txt", "form\x0cfeed.txt", "vt\x0btab.txt", "fs\x1csep.txt", "nel\u0085next.txt", "ls\u2028sep.txt",
-              "ff\x0cdir/inner.txt"]:
+              "ff\x0cdir/inner.txt",
+              # names whose last character is white space (a blank, a no-break space, an ideographic space)
+              "draft ", "old stuff /inner.txt", "nbsp\u00a0", "wide\u3000"]:
         data = "content of %s\n" % n
         t.file(n, data)
         model.add(b"/" + n.encode(), "doc", data.encode(), mime="text/plain" if n.endswith(".txt") else None, tags=["file", "extra"])
